@@ -497,8 +497,14 @@ impl<'a> ExprGen<'a> {
                 }
             }
             11 => {
-                let s = self.of_kind(Kind::Str, d);
-                GExpr::Like(s.b(), pools::pattern(self.rng))
+                if self.rng.chance(2, 5) {
+                    // tight alphabet: literals with self-overlapping prefixes after a wildcard, texts that nearly match
+                    let (txt, pat) = pools::tight_like(self.rng);
+                    GExpr::Like(GExpr::Str(txt).b(), pat)
+                } else {
+                    let s = self.of_kind(Kind::Str, d);
+                    GExpr::Like(s.b(), pools::pattern(self.rng))
+                }
             }
             12 | 13 => {
                 let a = self.of_kind(Kind::Ent, d);
